@@ -205,9 +205,13 @@ class World:
         if len(segs) >= 2:
             meth = segs[-1]; ty = segs[-2]
             m = re.fullmatch(r'<impl (.+)>', ty)
-            if m: ty = m.group(1)
             quals = segs[:-2]
-            r = self._find_method('::'.join(quals + [ty]), None, meth, from_crate, None)
+            if m:
+                # `module::<impl Type>::method`: the qualifier names the module of the impl block, not of the type
+                ty = m.group(1)
+                r = self._find_method(ty, None, meth, from_crate, None, impl_mod='::'.join(quals))
+            else:
+                r = self._find_method('::'.join(quals + [ty]), None, meth, from_crate, None)
             if r is not None: return r
             for k in range(1, len(segs)):           # a longer path than the trimmed one MIR printed for the definition
                 hits = self.free.get('::'.join(segs[k:]), [])
@@ -216,13 +220,15 @@ class World:
         hits = self.free.get(g, [])
         return self._pick(hits, from_crate, g)
 
-    def _find_method(self, sty, trait, meth, from_crate, trait_full):
+    def _find_method(self, sty, trait, meth, from_crate, trait_full, impl_mod=None):
         refs = ''
         while sty.startswith('&'):
             refs += '&'; sty = sty[1:].strip()
             if sty.startswith('mut '): sty = sty[4:]
         tsegs = split_path(mt.strip_generics(sty)) if re.match(r'[\w:]+', sty) else [sty]
-        skey = refs + tsegs[-1].replace(' ', '')
+        last = tsegs[-1].replace(' ', '')
+        if last in self.tt.aliases and last not in self.tt.by_name: last = self.tt.aliases[last]; tsegs = [last]
+        skey = refs + last
         cands = [h for h in self.methods.get(meth, []) if h[2] is not None and h[2].trait == trait and h[2].self_key.replace(' ', '') == skey]
         if cands and len(tsegs) > 1:
             quals = tsegs[:-1]
@@ -238,6 +244,9 @@ class World:
             c2 = [h for h in cands if ok(h)]
             if c2: cands = c2
             elif quals[0] in ('std', 'core', 'alloc') or quals[0] not in self.files: cands = []      # e.g. std::path::Path is not hir::Path
+        if len(cands) > 1 and impl_mod:
+            c2 = [h for h in cands if h[1].startswith(impl_mod + '::<impl at') or ('/' + impl_mod.split('::')[-1] + '.rs') in h[1]]
+            if c2: cands = c2
         if len(cands) > 1 and trait_full and '<' in trait_full:
             inner = trait_full[trait_full.index('<') + 1:-1] if trait_full.endswith('>') else ''
             want = [arg_key(x) for x in mt.split_top(inner)] if inner else []
